@@ -13,6 +13,7 @@ import z3
 
 import opendsm.common.metrics as mt
 import opendsm.eemeter.models.daily.model as dm
+import opendsm.eemeter.models.hourly.model as hmod
 from symv import engine as E
 from symv.carriers import patched, symnp, symarr
 from symv.case import Case
@@ -29,7 +30,7 @@ STUBS = ["builtin float() inside opendsm.common.metrics -> identity on symbolic 
          "t_stat (scipy t quantile) -> fresh positive symbol", "skew/kurtosis not evaluated"]
 MODELS_USED = ["symreal reductions (sum, mean, var ddof=0, median)", "symnp.quantile (sorting network + numpy linear interpolation)", "sqrt: s>=0, s*s==x"]
 ASSUMPTIONS = ["floats as reals; min_denominator 1e-3 enters as its exact rational value", "inf cells are not enumerated (NaN only): np.isfinite treats both alike"]
-EXPECTED_REGIMES = ["row dropped for NaN", "ratio undefined (denominator not safely positive)", "ddof clipped to 1", "autocorrelation undefined", "reporting row with usage but no prediction"]
+EXPECTED_REGIMES = ["row dropped for NaN", "ratio undefined (denominator not safely positive)", "ddof clipped to 1", "autocorrelation undefined", "reporting row with usage but no prediction", "hourly: interpolated row kept out of the metrics", "CrossHair confirmed a leaf contract over all paths"]
 MIN_DEN = 1e-3
 RATIOS = {  # field -> (numerator field, denominator kind)
     "nmae": ("mae", "mean"), "pnmae": ("mae", "iqr"), "nmbe": ("mbe", "mean"), "pnmbe": ("mbe", "iqr"),
@@ -44,13 +45,13 @@ def ENCODED():
             mt.BaselineMetrics.cvrmse.func, mt.BaselineMetrics.pnrmse.func, mt.BaselineMetrics.r_squared.func, mt.BaselineMetrics.r_squared_adj.func,
             mt.ColumnMetrics.mean.func, mt.ColumnMetrics.variance.func, mt.ColumnMetrics.iqr.func, mt._safe_divide,
             mt.ReportingMetrics.savings.func, mt.ReportingMetrics.total_savings_uncertainty.func, mt.ReportingMetrics.fsu.func,
-            dm.DailyModel._get_error_metrics]
+            dm.DailyModel._get_error_metrics, hmod.HourlyModel._fit, hmod.HourlyModel._adaptive_fit, hmod.HourlyModel._model_fit_is_acceptable]
 
 
 def cases(tier, seed):
     ns = [2, 3, 4] if tier == "thorough" else [2, 3]
     groups = ["core"] + list(RATIOS) + ["r_squared_adj"]
-    out = [f"baseline/{n}/{g}" for n in ns for g in groups] + [f"reporting/{n}" for n in ns[:2]] + ["safe_divide/0", "daily_error/3", "gate/0"]
+    out = [f"baseline/{n}/{g}" for n in ns for g in groups] + [f"reporting/{n}" for n in ns[:2]] + ["safe_divide/0", "daily_error/3", "gate/0", "hourly_fit/plain", "hourly_fit/adaptive", "crosshair/leaves"]
     return out
 
 
@@ -321,7 +322,177 @@ def run_gate(case):
     case.sample(dict(check="HourlyModel._model_fit_is_acceptable", paths=len(paths)))
 
 
-REPLAY = {"gate": replay_gate, "baseline": replay_baseline, "safe_divide": replay_safe_divide, "reporting": replay_reporting, "daily_error": replay_daily_error}
+# ----------------------------------------------------------------- hourly: which rows and which parameter count reach the metrics
+
+HF_ROWS = 2
+HF_FLAGS = ["interpolated_temperature", "interpolated_observed", "interpolated_ghi"]
+
+
+def hourly_fit_run(kind, flags, coef, intercept, obs, pred):
+    """the real HourlyModel._fit / _adaptive_fit with the numerics stubbed: feature preparation, ElasticNet.fit and
+    _predict are stand-ins; BaselineMetrics is a recorder.  Returns (rows handed to the metrics, parameter count)."""
+    import opendsm.eemeter.models.hourly.model as hm
+    rec = {}
+
+    class _EN:
+        coef_ = coef
+        intercept_ = intercept
+
+        def fit(self, X, y, sample_weight=None):
+            rec["fit"] = True
+
+        def predict(self, X):
+            return X
+
+    class _BM:
+        def __init__(self, df=None, num_model_params=None):
+            rec["df"], rec["p"] = df, num_model_params
+
+    idx = pd.date_range("2021-03-01", periods=HF_ROWS, freq="h", tz="UTC")
+    cols = {"observed": obs, "predicted": pred}
+    for name in HF_FLAGS:
+        if name in flags:
+            cols[name] = np.array(flags[name], dtype=bool)
+    frame = pd.DataFrame(cols, index=idx)
+    m = object.__new__(hm.HourlyModel)
+    m._model = _EN()
+    m._prepare_features = lambda df: ("X_fit", "X_predict", "y_fit")
+    m._predict = lambda data, X=None: frame
+    m.settings = types.SimpleNamespace(elasticnet=types.SimpleNamespace(adaptive_weight_max_iter=0, adaptive_weight_tol=1e-4))
+    data = types.SimpleNamespace(df=frame, tz="UTC")
+    with patched(hm, BaselineMetrics=_BM):
+        (m._fit if kind == "plain" else m._adaptive_fit)(data)
+    return rec["df"], rec["p"], m
+
+
+def replay_hourly_fit(inp):
+    env = inp["env"]
+    n = HF_ROWS
+    flags = {k: v for k, v in inp["flags"].items()}
+    coef = np.array([float(env[f"c{i}"]) for i in range(2)])
+    icpt = np.float64(env["c_int"])
+    obs = np.array([float(env[f"o{i}"]) for i in range(n)])
+    pred = np.array([float(env[f"q{i}"]) for i in range(n)])
+    df, p, m = hourly_fit_run(inp["kind"], flags, coef, icpt, obs, pred)
+    keep = [i for i in range(n) if not any(flags[k][i] for k in flags)]
+    want_p = int(np.count_nonzero(coef)) + int(icpt != 0)
+    got_rows = [int((t - pd.Timestamp("2021-03-01", tz="UTC")) / pd.Timedelta(hours=1)) for t in df.index]
+    bad = got_rows != keep or p != want_p or not np.array_equal(df["observed"].to_numpy(), obs[keep]) or not np.array_equal(df["predicted"].to_numpy(), pred[keep])
+    return bool(bad), f"metrics received rows {got_rows} (expected the non-interpolated rows {keep}) and num_model_params={p} (expected {want_p}) for flags {flags}, coef {coef.tolist()}, intercept {float(icpt)}"
+
+
+def run_hourly_fit(case, kind):
+    n = HF_ROWS
+    names = [f"o{i}" for i in range(n)] + [f"q{i}" for i in range(n)] + ["c0", "c1", "c_int"]
+    case.inputs = [z3.Real(x) for x in names]
+
+    def run():
+        present = ["interpolated_temperature", "interpolated_observed"] + (["interpolated_ghi"] if F.choose("has_ghi", [False, True]) else [])
+        flags = {k: [F.choose(f"{k}_{i}", [False, True]) if (i == 0 or k != "interpolated_ghi") else False for i in range(n)] for k in present}
+        coef = np.empty(2, dtype=object)
+        for i in range(2):
+            coef[i] = real(f"c{i}")
+        icpt = real("c_int")
+        obs = SymArray([real(f"o{i}") for i in range(n)])
+        pred = SymArray([real(f"q{i}") for i in range(n)])
+        df, p, m = hourly_fit_run(kind, flags, coef, icpt, obs, pred)
+        return flags, df, p, m.is_fitted, m.baseline_timezone
+
+    with patched(__import__("opendsm.eemeter.models.hourly.model", fromlist=["x"]), np=symnp):
+        paths = case.explore(run)
+    t0 = pd.Timestamp("2021-03-01", tz="UTC")
+    for p in paths:
+        rp = ("hourly_fit", lambda mdl: dict(kind=kind, flags={}, env=model_env(mdl, case.inputs)))
+        if p.outcome != "ret":
+            case.prove(p, False, "hourly fit tail (metrics on the baseline prediction) does not raise", replay=rp)
+            continue
+        flags, df, cnt, fitted, tz = p.value
+        rp = ("hourly_fit", (lambda fl: lambda mdl: dict(kind=kind, flags=fl, env=model_env(mdl, case.inputs)))(flags))
+        case.twin(p)
+        keep = [i for i in range(n) if not any(flags[k][i] for k in flags)]
+        got_rows = [int((t - t0) / pd.Timedelta(hours=1)) for t in df.index]
+        case.regime("hourly: interpolated row kept out of the metrics", len(keep) < n)
+        case.prove(p, z3.BoolVal(got_rows == keep and fitted is True and tz == "UTC"), "hourly baseline metrics are computed on exactly the non-interpolated hours (any interpolated_ flag excludes the row)", replay=rp)
+        if got_rows == keep:
+            o, q = cells(df["observed"]), cells(df["predicted"])
+            same = z3.And([zr(o[j]) == z3.Real(f"o{i}") for j, i in enumerate(keep)] + [zr(q[j]) == z3.Real(f"q{i}") for j, i in enumerate(keep)] + [z3.BoolVal(True)])
+            case.prove(p, same, "hourly baseline metrics see the observed/predicted pair of each kept hour unchanged", replay=rp)
+        want = sum((z3.If(z3.Real(c) != 0, 1, 0) for c in ("c0", "c1", "c_int")), z3.IntVal(0))
+        got = cnt.e if hasattr(cnt, "e") else z3.IntVal(int(cnt))
+        case.prove(p, got == want, "num_model_params == number of non-zero coefficients + non-zero intercept", replay=rp)
+    case.sample(dict(check=f"HourlyModel.{'_fit' if kind == 'plain' else '_adaptive_fit'} metrics tail", paths=len(paths)))
+
+
+# ----------------------------------------------------------------- second engine: CrossHair on the pure-Python leaves
+
+XH_SRC = '''
+import types
+from typing import Optional
+import opendsm.common.metrics as mt
+import opendsm.eemeter.models.hourly.model as hm
+
+
+def twin_safe_divide(num: float, den: float) -> Optional[float]:
+    """
+    pre: -1e6 < num < 1e6 and -1e6 < den < 1e6
+    pre: not (den <= 0.001 and num <= 0.01)
+    post: (_ is None) == (den <= 0.001)
+    """
+    return mt._safe_divide(num, den)
+
+
+def twin_safe_divide__post(res, num, den):
+    return (res is None) == (den <= 0.001) and (res is None or res == num / den)
+
+
+def twin_gate(c: Optional[float], p: Optional[float], tc: float, tp: float) -> bool:
+    """
+    pre: (c is None or -1e6 < c < 1e6) and (p is None or -1e6 < p < 1e6) and 0 < tc < 100 and 0 < tp < 100
+    post: _ == ((c is not None and c < tc) or (p is not None and p < tp))
+    """
+    m = object.__new__(hm.HourlyModel)
+    m.baseline_metrics = types.SimpleNamespace(cvrmse_adj=c, pnrmse_adj=p, cvrmse=None, pnrmse=None)
+    m.settings = types.SimpleNamespace(cvrmse_threshold=tc, pnrmse_threshold=tp)
+    return bool(m._model_fit_is_acceptable())
+
+
+def twin_gate__post(res, c, p, tc, tp):
+    return res == ((c is not None and c < tc) or (p is not None and p < tp))
+'''
+XH_LABELS = {"twin_safe_divide": "CrossHair: _safe_divide reports a number exactly for a safely positive denominator (outside region C16-safe-divide)",
+             "twin_gate": "CrossHair: hourly model acceptable <=> adjusted CVRMSE or adjusted PNRMSE below its threshold (undefined never passes)"}
+
+
+def replay_xhair(inp):
+    from symv.xhair import concrete_check
+    return concrete_check(XH_SRC, inp["call"])
+
+
+def run_crosshair(case):
+    from symv.xhair import run_twins, concrete_check
+    res = run_twins(XH_SRC, list(XH_LABELS), per_condition_timeout=25 if case.tier == "quick" else 60)
+    for fn, r in res.items():
+        label = XH_LABELS[fn]
+        if r["verdict"] == "refuted":
+            try:
+                bad, detail = concrete_check(XH_SRC, r["call"])
+            except Exception as ex:
+                bad, detail = False, f"replay failed: {ex!r}"
+            if bad:
+                case.ground(False, label)
+                case.violation(label, "xhair", dict(call=r["call"]), detail)
+            else:
+                case.rep["nonreproducing"].append(dict(label=label, inputs=dict(call=r["call"]), detail=detail))
+        elif r["verdict"] == "confirmed":
+            case.ground(True, label)
+        else:
+            case.note(f"CrossHair inconclusive for {fn}: {r['raw'][-160:]}")
+        case.sample(dict(engine="crosshair 0.0.110", condition=fn, verdict=r["verdict"], wall_s=r["wall_s"]))
+    case.regime("CrossHair confirmed a leaf contract over all paths", any(r["verdict"] == "confirmed" for r in res.values()))
+    case.rep["paths"] += len(res)
+
+
+REPLAY = {"xhair": replay_xhair, "hourly_fit": replay_hourly_fit, "gate": replay_gate, "baseline": replay_baseline, "safe_divide": replay_safe_divide, "reporting": replay_reporting, "daily_error": replay_daily_error}
 
 
 def daily_error(resid, obs, wsse):
@@ -337,7 +508,7 @@ def daily_error(resid, obs, wsse):
 
 def run_case(case: Case, name: str):
     kind, n = name.split("/")[:2]
-    n = int(n)
+    n = int(n) if n.isdigit() else n
     if kind == "baseline":
         return run_baseline(case, n, name.split("/")[2])
     if kind == "reporting":
@@ -346,6 +517,10 @@ def run_case(case: Case, name: str):
         return run_safe_divide(case)
     if kind == "gate":
         return run_gate(case)
+    if kind == "hourly_fit":
+        return run_hourly_fit(case, name.split("/")[1])
+    if kind == "crosshair":
+        return run_crosshair(case)
     return run_daily_error(case, n)
 
 
